@@ -397,6 +397,15 @@ theorem negotiate_py_is_model (oursAs oursHold theirsAs theirsHold : Nat) (s r :
       .ret () (scalarsOf (negotiateSets oursAs oursHold theirsAs theirsHold s r)) :=
   py_negotiate_scalars_eq_model oursAs oursHold theirsAs theirsHold s r st0 hr hm
 
+/-- **The model is the code** (the fixed part of a received OPEN): `Open.unpack_message`, translated from /repo
+    on this run, refuses a body shorter than the ten octets of the fixed part with 1/2 and a version other than 4
+    with 2/1, exactly where `decodeOpen` does, and otherwise goes on to the optional parameters. -/
+theorem open_fixed_py_is_model (body : Bytes) :
+    Generated.PyNego.OpenFixed.unpack_message ⟨⟩ body.length (body.getD 0 0) =
+      (match openFront body with | some e => .raise e.code e.sub | none => .ret true ⟨⟩) ∧
+    (∀ e, openFront body = some e → decodeOpen body = .error e) :=
+  ⟨py_open_fixed_eq_model body, fun e h => decodeOpen_front body e h⟩
+
 /-- **bad_peer_as → 2/2**: a peer AS is configured and the peer AS in force differs. -/
 theorem refuse_bad_peer_as (cfg : Cfg) (n : Negotiated) (t : OpenMsg) (h0 : cfg.peerAs ≠ 0)
     (h : n.peerAs ≠ cfg.peerAs) : validateOpen cfg n t = some ⟨2, 2⟩ := by
